@@ -289,11 +289,29 @@ fn run_unit_robust(eng: &dyn Engine, ctx: &Ctx, w: &mut Option<WorkerProc>, unit
 
 /// Execute an explicit case in a (possibly fresh) worker and return its violations.
 pub fn exec_case(eng: &dyn Engine, ctx: &Ctx, w: &mut Option<WorkerProc>, case: &Value) -> Result<Vec<Violation>, String> {
+    exec_case_t(eng, ctx, w, case, eng.case_timeout_s())
+}
+
+/// Like `exec_case`, but a wall-clock backstop that fires is not taken at face value: the case
+/// is run once more, alone, with ten times the limit. Deterministic verdicts (fuel hooks) then
+/// come out as what they are even on a machine that is busy with something else; only a case
+/// that really does not finish is still `hang(wall)`. Used wherever a verdict is decided
+/// (witnesses of recorded findings, confirmation replays).
+pub fn exec_case_patient(eng: &dyn Engine, ctx: &Ctx, w: &mut Option<WorkerProc>, case: &Value) -> Result<Vec<Violation>, String> {
+    let r = exec_case(eng, ctx, w, case)?;
+    if r.iter().any(|v| v.class.contains("hang(wall)")) {
+        *w = None;
+        return exec_case_t(eng, ctx, w, case, eng.case_timeout_s() * 10);
+    }
+    Ok(r)
+}
+
+pub fn exec_case_t(eng: &dyn Engine, ctx: &Ctx, w: &mut Option<WorkerProc>, case: &Value, timeout_s: u64) -> Result<Vec<Violation>, String> {
     if w.is_none() {
         *w = Some(WorkerProc::spawn(ctx)?);
     }
     let req = json!({"op": "exec", "engine": eng.name(), "case": case});
-    match w.as_mut().unwrap().request(&req, Duration::from_secs(eng.case_timeout_s()), |_| {}) {
+    match w.as_mut().unwrap().request(&req, Duration::from_secs(timeout_s), |_| {}) {
         Ok(v) => Ok(v.get("violations").and_then(|a| a.as_array()).map(|a| a.iter().filter_map(Violation::from_json).collect()).unwrap_or_default()),
         Err(Death::Protocol(p)) => {
             *w = None;
@@ -430,7 +448,7 @@ pub fn drive(eng: Box<dyn Engine>, ctx: Ctx, cfg: RunConfig) -> i32 {
     for k in known_for_witness.iter().filter(|k| k.engine == eng.name()) {
         if let Some(case) = &k.case {
             let mut w = None;
-            match exec_case(&*eng, &ctx, &mut w, case) {
+            match exec_case_patient(&*eng, &ctx, &mut w, case) {
                 Ok(vs) => {
                     witnesses_run += 1;
                     merged.lock().unwrap().violations.extend(vs);
@@ -474,7 +492,7 @@ pub fn drive(eng: Box<dyn Engine>, ctx: Ctx, cfg: RunConfig) -> i32 {
         let (minv, execs) = minimise(&*eng, &ctx, &v, budget);
         // confirm in a fresh worker process
         let mut w = None;
-        let confirmed = match exec_case(&*eng, &ctx, &mut w, &minv.case) {
+        let confirmed = match exec_case_patient(&*eng, &ctx, &mut w, &minv.case) {
             Ok(vs) => vs.into_iter().find(|x| eng.same_class(&x.class, &class)),
             Err(e) => {
                 m.harness_errors.push(format!("replay of {} failed: {}", class, e));
